@@ -24,7 +24,7 @@ Theorem C06_decrypt_accepts_only_valid_mac : forall et key usage ct m,
   | Some FAesSha1 => exists ke pt, derive_key et key (usage_const usage 170) = Ok ke /\
       cts_decrypt (aes_ecb_dec ke) (firstn n ct) = Ok pt /\
       integrity_hash et key usage pt = Ok (skipn n ct) /\ m = skipn 16 pt
-  | Some FAesSha2 => exists ke pt, derive_key et key (usage_const usage 170) = Ok ke /\
+  | Some FAesSha2 => length key = key_len et /\ exists ke pt, derive_key et key (usage_const usage 170) = Ok ke /\
       cts_decrypt (aes_ecb_dec ke) (firstn n ct) = Ok pt /\
       integrity_hash et key usage (zeros 16 ++ firstn n ct) = Ok (skipn n ct) /\ m = skipn 16 pt
   | Some FDes3 => exists ke, derive_key et key (usage_const usage 170) = Ok ke /\
@@ -33,7 +33,7 @@ Theorem C06_decrypt_accepts_only_valid_mac : forall et key usage ct m,
   | Some FRc4 =>
       let k2 := HMAC.hmac_md5 key (rc4_msg_type usage) in
       let pt := RC4.rc4 (HMAC.hmac_md5 k2 (firstn 16 ct)) (skipn 16 ct) in
-      HMAC.hmac_md5 k2 pt = firstn 16 ct /\ m = skipn 8 pt
+      length key = key_len et /\ HMAC.hmac_md5 k2 pt = firstn 16 ct /\ m = skipn 8 pt
   | None => False
   end.
 Proof. exact decrypt_accepts_only_valid_mac. Qed.
@@ -44,3 +44,10 @@ Theorem C06_usage_const_injective : forall u1 o1 u2 o2,
   0 <= u1 < 2 ^ 32 -> 0 <= u2 < 2 ^ 32 -> usage_const u1 o1 = usage_const u2 o2 -> u1 = u2 /\ o1 = o2.
 Proof. exact usage_const_injective. Qed.
 Print Assumptions C06_usage_const_injective.
+
+(* a key of another size than the etype's is refused by every family (so the genuine key followed by zero bytes,
+   which HMAC would treat as the same key, is not accepted) *)
+Theorem C06_decrypt_wrong_key_size_is_error : forall et key usage ct,
+  length key <> key_len et -> exists e, decrypt et key usage ct = Err e.
+Proof. exact decrypt_wrong_key_size_is_error. Qed.
+Print Assumptions C06_decrypt_wrong_key_size_is_error.
